@@ -134,6 +134,35 @@ def one_input(args):
                 ent["plain"] = {name: ([pipe_common.rec_for_tla(r) for r in p["records"] if not r.get("malformed")]
                                        if p else None) for name, p in ref_run["files"].items()}
             out["runs"][mode] = ent
+        # the standard output as destination ("-o ... Stdout is used if omitted"): through a pipe / redirected to a file,
+        # and a device as -o; the records must be those of the run that wrote a regular file
+        if idx % 3 == 1:
+            via = "pipe" if idx % 2 else "file"
+            mode = "best"
+            cap = os.path.join(wd, f"stdout_{via}.xmap")
+            argv = pipeline.arg_list(rp, qp, "unused", mode, 1, extra)
+            code, err = pipeline.run_cli_to_stdout(argv, cap, via)
+            ent = {"status": "ok" if code == 0 else f"exit:{code}", "log": err[-500:], "cli": True, "files": {}}
+            parsed = pipeline.parse_xmap(cap)
+            f = {"header_ok": parsed["header_ok"],
+                 "malformed": [r["malformed"] for r in parsed["records"] if r.get("malformed")],
+                 "records": [pipe_common.rec_for_tla(r) for r in parsed["records"] if not r.get("malformed")]}
+            try:
+                rb = pipe_common.read_back(cap, rp, qp)
+                f["readback"] = "ok" if len(rb) == len(f["records"]) else f"count:{len(rb)}"
+            except Exception as e:
+                f["readback"] = "exc:" + type(e).__name__
+            ent["files"]["main"] = f
+            base = out["runs"].get("best")
+            if base and base["status"] == "ok" and base["files"].get("main"):
+                ent["plain_status"] = "ok"
+                ent["plain"] = {"main": base["files"]["main"]["records"]}
+                ent["plain_keeps_all"] = True
+            out["runs"][f"best/stdout-{via}"] = ent
+            if idx % 2:
+                code, log = pipeline.run_cli(pipeline.arg_list(rp, qp, os.devnull, mode, 1, extra))
+                out["runs"]["best/dev-null"] = {"status": "ok" if code == 0 else f"exit:{code}", "log": log[-500:],
+                                                "cli": True, "files": {}}
         # selections that match nothing: no query / no reference at all
         for label, kw in (("qId-matches-nothing", {"qids": [987654]}), ("rId-matches-nothing", {"rids": [987654]})):
             mode = MODES[idx % 4]
@@ -171,8 +200,9 @@ def run(ctx: Ctx):
     ctx.rule = ("syntactically valid degenerate CMAP sets: one- and two-label molecules, duplicate positions, queries "
                 "longer than every reference, references with one or two labels, inputs without any alignable query, "
                 "very dense / very sparse molecules - alone and mixed with ordinary queries; modes best / separate / "
-                "joined / all / single; 6 parameter vectors allowed by the option help (minPeakDistance >= "
-                "primaryResolution); in process and through the CLI. non-trivial = distinct (input, mode) run")
+                "joined / all / single; 10 parameter vectors allowed by the option help (minPeakDistance >= "
+                "primaryResolution); in process and through the CLI, output to a file (with / without extension), to the "
+                "standard output (pipe / redirected) and to a device. non-trivial = distinct (input, mode) run")
     ctx.assumptions = ["'well-formed input' = CMAP text in the documented format with >= 1 label row per molecule and "
                        "an end-marker row; parameter vectors respect minPeakDistance >= primaryResolution"]
     mc = tlc.run_tlc("MC_Worker", "MC_Worker.cfg", ctx.workdir, workers=4)
@@ -213,11 +243,12 @@ def run(ctx: Ctx):
             if "plain" in ent and ent.get("plain_status") == "ok":
                 # the ordinary queries' records must not depend on the degenerate molecules
                 runs = {}
+                drop = set() if ent.get("plain_keeps_all") else set(res["degenerate"])
                 for which, src in (("with", {n_: (f["records"] if f else []) for n_, f in ent["files"].items()}),
                                    ("without", {n_: (v or []) for n_, v in ent["plain"].items()})):
-                    runs[which] = {"main": without_ids(src.get("main", []), set(res["degenerate"])),
-                                   "f1": without_ids(src.get("_1", []), set(res["degenerate"])),
-                                   "f2": without_ids(src.get("_2", []), set(res["degenerate"]))}
+                    runs[which] = {"main": without_ids(src.get("main", []), drop),
+                                   "f1": without_ids(src.get("_1", []), drop),
+                                   "f2": without_ids(src.get("_2", []), drop)}
                 cmp_lines.append(runs)
                 cmp_tags.append(tag)
     if cmp_lines:
@@ -226,7 +257,11 @@ def run(ctx: Ctx):
         ctx.states += r.distinct
         ctx.transitions += r.generated
         for tid, (failed, drift) in sorted(verdicts.items()):
-            if failed:
+            if failed and "stdout" in str(cmp_tags[tid]["mode"]):
+                # the same run written to the standard output gives other records than written to a file: not a clause
+                # of C07 (an observation)
+                ctx.add_drift(1, {"tag": cmp_tags[tid], "note": "stdout_differs_from_file"})
+            elif failed:
                 ctx.violation({"tag": cmp_tags[tid], "runs": cmp_lines[tid]}, failed, "",
                               what=f"{cmp_tags[tid]}: records of ordinary queries change when degenerate molecules are present")
     ctx.notes["runs"] = sum(len(r["runs"]) for r in results)
